@@ -102,6 +102,7 @@ var runLens = []int{1, 2, 3, 4, 7, 8, 15, 16, 17, 31, 32, 33, 47, 63, 64, 65, 70
 type Plan struct {
 	Stretch bool // expand stretchable classes to runs
 	Digits  bool // expand a d1 to 1..3 digits (stays inside the same number / string / junk position)
+	Gaps    []int // positions (number of classes before them) where a run of blanks may be inserted
 	Lead    int  // leading blanks
 	Trail   int  // trailing blanks
 }
@@ -113,7 +114,16 @@ func Concrete(classes []string, p Plan, r *rand.Rand) (out []byte, seg [][2]int)
 	}
 	seg = make([][2]int, len(classes))
 	inExp := false
+	gap := map[int]bool{}
+	for _, g := range p.Gaps {
+		gap[g] = true
+	}
 	for i, c := range classes {
+		if gap[i] && p.Stretch && r != nil && r.Intn(3) == 0 {
+			for k := runLens[r.Intn(len(runLens))]; k > 0; k-- {
+				out = append(out, blank(r))
+			}
+		}
 		st := len(out)
 		n := 1
 		if p.Stretch && stretchable[c] && r != nil && r.Intn(3) == 0 {
